@@ -489,8 +489,18 @@ class C20(Check):
 
         terms, kinds, notes = c20_translate.translate_all()
         ctx.cov["formula_terms"] = {k: kinds[k] for k in terms}
+        # control flow of Pattern.at / TimeSeries.at / Demands.at / _gcd / _lcm / _lcml / average_expected_demand / _interp_extrapolate
+        import c20_shape
+
+        shape_err = None
+        try:
+            vlib.write_if_changed(os.path.join(vlib.GEN, "PatternFormulas.lean"), c20_shape.generate())
+        except BrokenTie as e:  # the formula terms below are still regenerated
+            shape_err = e
         vlib.write_if_changed(os.path.join(vlib.GEN, "MetricsFormulas.lean"),
                               c20_translate.gen_lean(terms, kinds, c20_translate.population_constants()))
+        if shape_err is not None:
+            raise BrokenTie("c20_shape: %s" % shape_err)
 
     # ------------------------------------------------------------------ one network
     def run_spec(self, ctx, spec, reqs, fails, with_sim=True, label=""):
